@@ -2087,10 +2087,10 @@ theorem toBools_congr_bits (h h1 : Heap) (p : PBA) (hwf : WF h p) (hsz : h1.size
   have := List.mem_range.mp hi
   exact hb _ (by omega) (by omega)
 
-/-- `resize` of an owning array (or without a change of the byte count): the elements are kept,
-    the new ones are False whatever the padding bits held; only padding bits of `p` change. -/
+/-- `resize` of an owning array: the elements are kept, the new ones are False whatever the
+    padding bits held; only padding bits of `p` change. -/
 theorem resize_spec (h : Heap) (p : PBA) (hwf : WF h p) (newsize : Nat) (hge : p.n ≤ newsize)
-    (hok : p.own = true ∨ (newsize + p.start + 7) / 8 = p.len ∨ newsize = p.n) :
+    (hok : p.own = true ∨ newsize = p.n) :
     ∃ h' p', resize h p newsize = ((h', p'), none) ∧ WF h' p' ∧ p'.n = newsize ∧ p'.own = p.own ∧
       toBools h' p' = toBools h p ++ List.replicate (newsize - p.n) false ∧
       (∀ k, k < 8 * h.size → ¬ padBit p k → hbit h' k = hbit h k) ∧ h.size ≤ h'.size := by
@@ -2104,18 +2104,15 @@ theorem resize_spec (h : Heap) (p : PBA) (hwf : WF h p) (newsize : Nat) (hge : p
     unfold resize
     rw [if_neg (by rw [hsize]; omega), if_pos (by rw [hsize]; simp)]
   · have hlt : p.n < newsize := by omega
-    have hok' : p.own = true ∨ (newsize + p.start + 7) / 8 = p.len := by
-      rcases hok with hh | hh | hh
-      · exact Or.inl hh
-      · exact Or.inr hh
-      · exact absurd hh heq
+    have hown : p.own = true := hok.elim id (fun hh => absurd hh heq)
+    have hnown : (!p.own) = false := by simp [hown]
     by_cases hs8 : p.stop % 8 = 0
     · obtain ⟨h', p', e, hw', hn', ho', hb', hfr, hsz⟩ :=
-        growBuffer_spec h p hwf' newsize hlt (padZero_of_aligned h p hwf' hs8) hok'
+        growBuffer_spec h p hwf' newsize hlt (padZero_of_aligned h p hwf' hs8) (Or.inl hown)
       refine ⟨h', p', ?_, hw', hn', ho', hb', fun k hk _ => hfr k hk, hsz⟩
       unfold resize
       rw [if_neg (by rw [hsize]; omega), if_neg (by rw [hsize]; simp; omega)]
-      simp only [resize_nd, hs8, bne_self_eq_false, Bool.false_eq_true, if_false]
+      simp only [resize_nd, hs8, bne_self_eq_false, Bool.false_eq_true, if_false, hnown]
       exact e
     · obtain ⟨hsz1, hm⟩ := maskPad_spec h p hwf' hs8
       generalize hh1 : wr h (p.off + p.len - 1) (rdB h (p.off + p.len - 1) &&& lowMask (p.stop % 8).toNat) = h1
@@ -2123,42 +2120,25 @@ theorem resize_spec (h : Heap) (p : PBA) (hwf : WF h p) (newsize : Nat) (hge : p
       obtain ⟨hw1, hb1⟩ := toBools_congr_bits h h1 p hwf' hsz1
         (fun k k1 k2 => (hm k).2 (by unfold padBit; omega))
       have hpad1 : PadZero h1 p := fun k k1 k2 => (hm k).1 ⟨k1, k2⟩
-      obtain ⟨h', p', e, hw', hn', ho', hb', hfr, hsz⟩ := growBuffer_spec h1 p hw1 newsize hlt hpad1 hok'
+      obtain ⟨h', p', e, hw', hn', ho', hb', hfr, hsz⟩ := growBuffer_spec h1 p hw1 newsize hlt hpad1 (Or.inl hown)
       refine ⟨h', p', ?_, hw', hn', ho', by rw [hb', hb1], fun k hk hnp => ?_, by omega⟩
       · unfold resize
         rw [if_neg (by rw [hsize]; omega), if_neg (by rw [hsize]; simp; omega)]
         have hl0 : (p.len == 0) = false := by simp; omega
         simp only [resize_nd', bne_iff_ne, ne_eq, hs8, not_false_eq_true, if_true, hl0, Bool.false_eq_true,
-          if_false, hh1]
+          if_false, hh1, hnown]
         exact e
       · rw [hfr k (by omega), (hm k).2 hnp]
 
-/-- `resize` of a slice view to another byte count is refused (as numpy refuses to resize a
-    view); `size` is unchanged, but the padding bits of the view's last byte — bits of the parent —
-    have been cleared. -/
+/-- `resize` of a view (a buffer that does not own its memory) to a larger size is refused, as
+    numpy refuses to resize a view; neither the heap nor the object changes. -/
 theorem resize_view_spec (h : Heap) (p : PBA) (hwf : WF h p) (newsize : Nat) (hlt : p.n < newsize)
-    (hown : p.own = false) (hnd : (newsize + p.start + 7) / 8 ≠ p.len) :
-    ∃ h1, resize h p newsize = ((h1, p), some .value) ∧ h1.size = h.size ∧
-      ∀ k, (padBit p k → hbit h1 k = false) ∧ (¬ padBit p k → hbit h1 k = hbit h k) := by
-  have hs := hwf.stop_eq
-  have hwf' := hwf
+    (hown : p.own = false) : resize h p newsize = ((h, p), some .value) := by
   obtain ⟨a1, a2, a3, a4, a5⟩ := hwf
   have hsize : p.size = (p.n : Int) := by simp only [PBA.size, PBA.n]; omega
-  have hnd' : ((newsize + p.start + 7) / 8 == p.len) = false := by simp [hnd]
-  by_cases hs8 : p.stop % 8 = 0
-  · refine ⟨h, ?_, rfl, fun k => ⟨fun hp => ?_, fun _ => rfl⟩⟩
-    · unfold resize
-      rw [if_neg (by rw [hsize]; omega), if_neg (by rw [hsize]; simp; omega)]
-      simp [resize_nd'', hs8, growBuffer, hnd, hown]
-    · exact padZero_of_aligned h p hwf' hs8 k hp.1 hp.2 ▸ (by
-        unfold padBit at hp; simp only [PBA.A, PBA.n] at hp; omega)
-  · obtain ⟨hsz1, hm⟩ := maskPad_spec h p hwf' hs8
-    refine ⟨_, ?_, hsz1, hm⟩
-    unfold resize
-    rw [if_neg (by rw [hsize]; omega), if_neg (by rw [hsize]; simp; omega)]
-    have hl0 : (p.len == 0) = false := by simp; omega
-    simp [resize_nd'', hs8, hl0, growBuffer, hnd, hown]
-
+  unfold resize
+  rw [if_neg (by rw [hsize]; omega), if_neg (by rw [hsize]; simp; omega)]
+  simp [hown]
 
 theorem sumShaped_none (h : Heap) (p : PBA) (hwf : WF h p) (h0 : p.start = 0) (h8 : p.stop % 8 = 0)
     (init : List Nat) (c : Nat) (hprod : prodL (init ++ [8 * c]) = p.n) :
